@@ -20,8 +20,8 @@ type callClass func(fn *ssa.Function, c ssa.CallInstruction) bool
 // errDiscOpts parameterises one use of the engine.
 type errDiscOpts struct {
 	Rule   string
-	Class  callClass // calls whose error must be honoured
-	Again  callClass // calls that must not be reached on the error path (nil: same as Class)
+	Class  callClass                                            // calls whose error must be honoured
+	Again  callClass                                            // calls that must not be reached on the error path (nil: same as Class)
 	Exempt func(fn *ssa.Function, c ssa.CallInstruction) string // non-empty reason => skipped, listed
 }
 
